@@ -244,6 +244,39 @@ CLAIMED = {
         "technique": "who-may-call, abstract interpretation, loop-progress rule, control "
                      "dependence",
     },
+    "C17": {
+        "text": "Decides, on clang's type-resolved AST of all 8 Linux translation units "
+                "(built with setup.py's own macros): every PyArg_ParseTuple/Py_BuildValue/"
+                "PyObject_CallFunction format agrees with the number and C types of its "
+                "arguments; fixed-width utmp fields never reach a NUL-expecting consumer "
+                "and every bounded consumer is bounded by sizeof of the same member; "
+                "strncpy/memset/sprintf into fixed arrays are bounded by the destination; "
+                "signed shifts/multiplications of parsed arguments are range-guarded; "
+                "setmntent/socket/CPU_ALLOC/getifaddrs resources are released exactly once "
+                "on every CFG path (goto/label/loops, null-test refinement); the C tuple "
+                "slots agree with suser/sdiskpart/snicaddr and the all=False filter. "
+                "Necessary conditions: not a proof of memory safety, and no sanitizer is "
+                "run (that is a different technique family).",
+        "note": "Trusted: clang's parser and type checker, the CPython format-unit table, "
+                "utmp(5) on which members are unterminated, my C CFG construction.",
+        "technique": "type-resolved AST rules (clang JSON), C CFG resource typestate, "
+                     "cross-language slot agreement",
+    },
+    "C18": {
+        "text": "Decides that the ValueError checks of ionice/rlimit/cpu_affinity dominate "
+                "the native setter call and hold on sampled boundary values (-1,0,7,8) by "
+                "evaluating the guard expression itself; that cpu_affinity([]) takes the "
+                "eligible-CPU set; that each get/set form passes self.pid and the caller's "
+                "values to the matching native and wraps the result in the documented type; "
+                "that the C ioprio pack and unpack use the same shift and mask and that the "
+                "affinity sizing loop frees before re-allocating and doubles only under the "
+                "overflow guard. 'Every other process unchanged' and the kernel's own "
+                "behaviour are run-time facts and not decided.",
+        "note": "Trusted: Python ast / clang AST, the constant evaluator for guard "
+                "predicates, native name table.",
+        "technique": "CFG dominance, predicate evaluation, AST constant agreement "
+                     "across C macros",
+    },
     "C19": {
         "text": "Decides units of every temperature/threshold (m°C/1000, including the "
                 "requirement that a loop-carried value is a unit fixed point), cpufreq "
